@@ -10,7 +10,7 @@ EXTENDS QtlSorted, Json, IOUtils, TLC
 TraceLog == ndJsonDeserialize(IOEnv.TRACE)
 
 VARIABLE l
-tvars == <<hs, next, ncalls, l>>
+tvars == <<hs, next, ncalls, made, l>>
 
 IsEvent(e) == l <= Len(TraceLog) /\ TraceLog[l].e = e /\ l' = l + 1
 
@@ -21,22 +21,24 @@ Logged == [k \in 1..Len(ev.hs) |-> [c |-> ev.hs[k].c, i |-> ev.hs[k].i]]
 
 TInit == Init /\ l = 1
 
-TReset == IsEvent("Reset") /\ hs' = <<>> /\ next' = 1 /\ ncalls' = 0
+TReset == IsEvent("Reset") /\ hs' = <<>> /\ next' = 1 /\ ncalls' = 0 /\ made' = <<>>
 
 TCall ==
     /\ IsEvent("Call")
     /\ \/ ev.op = "AppendH" /\ AppendH(ev.c)
        \/ ev.op = "SetFormatter" /\ SetFormatter
+       \/ ev.op = "ReAppendH" /\ ReAppendH(ev.i) /\ made[ev.i] = ev.c         \* an object that was passed before
+       \/ ev.op = "ReSetFormatter" /\ ReSetFormatter(ev.i)
        \/ ev.op = "AppendNull" /\ AppendNull
        \/ ev.op = "Clear" /\ Clear(ev.c)
        \/ ev.op = "ClearAll" /\ ClearAll
-    /\ hs' = Logged
+    /\ [k \in 1..Len(hs') |-> [c |-> hs'[k].c, i |-> hs'[k].i]] = Logged
 
 \* handlers run in list order (ties C17's "hence ..." clause to what actually executes)
 TExec ==
     /\ IsEvent("Exec")
     /\ ev.order = [k \in 1..Len(hs) |-> hs[k].i]
-    /\ UNCHANGED <<hs, next, ncalls>>
+    /\ UNCHANGED <<hs, next, ncalls, made>>
 
 TNext == TReset \/ TCall \/ TExec
 
